@@ -71,3 +71,32 @@ pub fn m_replay_unit_calc() {
 }
 #[cfg(kani)]
 pub fn m_replay_unit_calc() {}
+
+/// format_number natively against a reference written from the property: digits of format!("{:.N}") (rounding on)
+/// or format!("{}") (rounding off), integer part grouped in threes, fraction dropped iff removal is on and all of
+/// its printed digits are '0'. The solver's real x is tried together with its four nearest doubles.
+#[cfg(not(kani))]
+pub fn m_replay_format_number() {
+    let x0: f64 = vany(); let n: u8 = vany(); let remove: u8 = vany(); let rounding: u8 = vany();
+    vassume(x0.is_finite() && n <= 60);
+    let deltas: [i64; 5] = [0, 1, -1, 2, -2];
+    for d in deltas.iter() {
+        let x = f64::from_bits((x0.to_bits() as i64 + d) as u64);
+        if !x.is_finite() { continue; }
+        let got = crate::formatter::format_number(x, ",".to_string(), ".".to_string(), n, remove == 1, rounding == 1);
+        let text = if rounding == 1 { alloc::format!("{:.*}", n as usize, x.abs()) } else { alloc::format!("{}", x.abs()) };
+        let (int_part, fract) = match text.find('.') { Some(i) => (&text[..i], &text[i + 1..]), None => (&text[..], "") };
+        let mut want = String::new();
+        if x < 0.0 { want.push('-'); }
+        let len = int_part.len();
+        for (i, ch) in int_part.chars().enumerate() {
+            want.push(ch);
+            if i + 1 != len && (len - 1 - i) % 3 == 0 { want.push(','); }
+        }
+        let all_zero = fract.chars().all(|c| c == '0');
+        if !fract.is_empty() && !(remove == 1 && all_zero) { want.push('.'); want.push_str(fract); }
+        assert!(got == want);
+    }
+}
+#[cfg(kani)]
+pub fn m_replay_format_number() {}
